@@ -9,8 +9,9 @@
     real-number result of the SAME model function ([C19_matmul_error], [C19_conv_error], [C19_sum_op_error],
     [C19_elementwise_error]); and the statement the property makes - binary32 against binary64 on the same data -
     [C19_matmul_f32_vs_f64]: |v32 - v64| <= (gamma_24(n+1) + gamma_53(n+1)) * (|c| + sum |a_k b_k|) + underflow terms.
-    NOT covered: compositions of operations (softmax, whole forward passes, gradients), which remain validated by the
-    differential run against the --features f32 build.  Axioms: Coq's Reals axioms and Classical_Prop.classic (Flocq adds none).
+    Compositions ([Proofs/RoundingCompose.v]): a dense layer's pre-activation, the mean-squared-error cost and softmax rows
+    (with exp of a stated relative accuracy on the data's range).  NOT covered: whole multi-layer forward passes and
+    gradients, which remain validated by the differential run against the --features f32 build.  Axioms: Coq's Reals axioms and Classical_Prop.classic (Flocq adds none).
 
     Statements only: every theorem below is closed by [exact <lemma>]; the lemmas are proved in
     the files imported here.  Generated with tools/gen_props.py from the lemmas' own types. *)
@@ -19,7 +20,7 @@ From Coq Require Import List Reals.
 From Flocq Require Import Core.
 From Corgi Require Import Lib.OptionMonad Lib.Sums Model.Scalar Model.RealScalar Model.RoundedScalar Model.Arr Model.SlicedOp
      Model.Elementwise Model.Linalg Model.Image Proofs.ArrFacts Proofs.BroadcastDims Proofs.SpecDefs Proofs.MatmulSpec
-     Proofs.ConvSpec Proofs.RealDerivs Proofs.RoundingSpec.
+     Proofs.ConvSpec Proofs.RealDerivs Proofs.RoundingSpec Proofs.RoundingCompose.
 Import ListNotations.
 Open Scope R_scope.
 
@@ -299,6 +300,175 @@ Theorem C19_theta_le_gamma :
   forall (prec : Z) (k : nat), INR k * u prec < 1 -> theta prec k <= gamma prec k.
 Proof. exact @theta_le_gamma. Qed.
 
+(** composition: a dense layer's pre-activation b_j + sum_k x_ik w_jk exactly as matmul-with-additive-term computes it: gamma_(n+1) * (|b_j| + sum |x_ik w_jk|), plus an underflow term that vanishes when no product underflows *)
+Theorem C19_dense_layer_error :
+  forall emin prec : Z,
+         Prec_gt_0 prec ->
+         forall (x w b : arr R) (r n m : nat),
+         wf x ->
+         wf w ->
+         wf b ->
+         dims x = [r; n] ->
+         dims w = [m; n] ->
+         dims b = [m] ->
+         fmt_arr emin prec b ->
+         INR (S n) * u prec < 1 ->
+         exists yf yr : arr R,
+           a_matmul (rounded_ops emin prec) x false w true (Some b) = Some yf /\
+           a_matmul R_ops x false w true (Some b) = Some yr /\
+           dims yf = [r; m] /\
+           dims yr = [r; m] /\
+           (forall i j : nat,
+            (i < r)%nat ->
+            (j < m)%nat ->
+            let bj := getd R_ops b [j] in
+            let exact := bj + rsum (dense_terms x w i j n) in
+            let T := rsum (map Rabs (dense_terms x w i j n)) in
+            exists vf : R,
+              get yf [i; j] = Some vf /\
+              get yr [i; j] = Some exact /\
+              Rabs (vf - exact) <= gamma prec (S n) * (Rabs bj + T) + INR n * eta emin * (1 + gamma prec n) /\
+              (Forall (no_uflow emin prec) (dense_terms x w i j n) ->
+               Rabs (vf - exact) <= gamma prec (S n) * (Rabs bj + T))).
+Proof. exact @dense_rounding_gamma. Qed.
+
+(** the dense pre-activation in binary32 against binary64 on the same data *)
+Theorem C19_dense_layer_f32_vs_f64 :
+  forall (x w b : arr R) (r n m : nat),
+         wf x ->
+         wf w ->
+         wf b ->
+         dims x = [r; n] ->
+         dims w = [m; n] ->
+         dims b = [m] ->
+         fmt_arr (-149) 24 b ->
+         (Z.of_nat (S n) < 16777216)%Z ->
+         exists y32 y64 : arr R,
+           a_matmul binary32_ops x false w true (Some b) = Some y32 /\
+           a_matmul binary64_ops x false w true (Some b) = Some y64 /\
+           dims y32 = [r; m] /\
+           dims y64 = [r; m] /\
+           (forall i j : nat,
+            (i < r)%nat ->
+            (j < m)%nat ->
+            let bj := getd R_ops b [j] in
+            let T := rsum (map Rabs (dense_terms x w i j n)) in
+            exists v32 v64 : R,
+              get y32 [i; j] = Some v32 /\
+              get y64 [i; j] = Some v64 /\
+              Rabs (v32 - v64) <=
+              (gamma 24 (S n) + gamma 53 (S n)) * (Rabs bj + T) +
+              INR n * (eta (-149) * (1 + gamma 24 n) + eta (-1074) * (1 + gamma 53 n)) /\
+              (Forall (no_uflow (-149) 24) (dense_terms x w i j n) ->
+               Rabs (v32 - v64) <= (gamma 24 (S n) + gamma 53 (S n)) * (Rabs bj + T))).
+Proof. exact @dense_f32_f64. Qed.
+
+(** composition: the mean-squared-error cost in corgi's literal order (difference, square, scale by 1/N, left-fold sum): gamma_(N+4) * mse + underflow *)
+Theorem C19_mse_error :
+  forall emin prec : Z,
+         Prec_gt_0 prec ->
+         (emin <= 0)%Z ->
+         forall t y : arr R,
+         wf t ->
+         wf y ->
+         dims t = dims y ->
+         dims t <> [] ->
+         fmt_arr emin prec t ->
+         fmt_arr emin prec y ->
+         let N := prod (dims y) in
+         generic_format radix2 (FLT_exp emin prec) (INR N) ->
+         bpow radix2 (emin + prec - 1) <= / INR N ->
+         INR (N + 4) * u prec < 1 ->
+         exists vf : R,
+           a_mse (rounded_ops emin prec) t y = Some vf /\
+           a_mse R_ops t y = Some (mse_exact t y) /\
+           Rabs (vf - mse_exact t y) <=
+           gamma prec (N + 4) * mse_exact t y + INR N * mse_kappa emin prec * (1 + gamma prec (N - 1)).
+Proof. exact @mse_rounding_gamma. Qed.
+
+(** the mse cost in binary32 against binary64 *)
+Theorem C19_mse_f32_vs_f64 :
+  forall t y : arr R,
+         wf t ->
+         wf y ->
+         dims t = dims y ->
+         dims t <> [] ->
+         fmt_arr (-149) 24 t ->
+         fmt_arr (-149) 24 y ->
+         let N := prod (dims y) in
+         (Z.of_nat N + 4 < 16777216)%Z ->
+         exists v32 v64 : R,
+           a_mse binary32_ops t y = Some v32 /\
+           a_mse binary64_ops t y = Some v64 /\
+           Rabs (v32 - v64) <=
+           (gamma 24 (N + 4) + gamma 53 (N + 4)) * mse_exact t y +
+           INR N *
+           (mse_kappa (-149) 24 * (1 + gamma 24 (N - 1)) + mse_kappa (-1074) 53 * (1 + gamma 53 (N - 1))).
+Proof. exact @mse_f32_f64. Qed.
+
+(** over the reals the literal composition is sum (t-y)^2 / N *)
+Theorem C19_mse_is_mean_square :
+  forall t y : arr R,
+         wf t -> wf y -> dims t = dims y -> dims t <> [] -> a_mse R_ops t y = Some (mse_exact t y).
+Proof. exact @a_mse_real. Qed.
+
+(** composition: softmax rows with an exp of relative accuracy eps on the data's range: every output within a stated relative bound of the exact softmax (plus eta), and every computed row sums to 1 within softmax_rel n + n eta *)
+Theorem C19_softmax_error :
+  forall emin prec : Z,
+         Prec_gt_0 prec ->
+         forall (fe : R -> R) (eps : R) (dom : R -> Prop),
+         0 <= eps < 1 ->
+         (forall x : R, generic_format radix2 (FLT_exp emin prec) (fe x)) ->
+         (forall x : R, dom x -> Rabs (fe x - exp x) <= eps * exp x) ->
+         forall (a : arr R) (lead : list nat) (n : nat),
+         wf a ->
+         dims a = lead ++ [n] ->
+         theta prec (n - 1) < 1 ->
+         Forall dom (vals a) ->
+         exists cf cr : arr R,
+           a_softmax (with_fexp (rounded_ops emin prec) fe) a = Some cf /\
+           a_softmax R_ops a = Some cr /\
+           dims cf = dims cr /\
+           (forall (J : list nat) (i : nat),
+            in_range J lead ->
+            (i < n)%nat ->
+            exists vf vr : R,
+              get cf (J ++ [i]) = Some vf /\
+              get cr (J ++ [i]) = Some vr /\ 0 < vr /\ Rabs (vf - vr) <= softmax_rel prec eps n * vr + eta emin) /\
+           (forall J : list nat,
+            in_range J lead ->
+            exists rowf : list R,
+              map Some rowf = map (fun i : nat => get cf (J ++ [i])) (seq 0 n) /\
+              Rabs (rsum rowf - 1) <= softmax_rel prec eps n + INR n * eta emin).
+Proof. exact @softmax_rounding. Qed.
+
+(** the same with the correctly rounded exp of the rounded instance (eps = u) *)
+Theorem C19_softmax_error_ideal_exp :
+  forall emin prec : Z,
+         Prec_gt_0 prec ->
+         forall (a : arr R) (lead : list nat) (n : nat),
+         wf a ->
+         dims a = lead ++ [n] ->
+         theta prec (n - 1) < 1 ->
+         Forall (exp_normal emin prec) (vals a) ->
+         exists cf cr : arr R,
+           a_softmax (rounded_ops emin prec) a = Some cf /\
+           a_softmax R_ops a = Some cr /\
+           dims cf = dims cr /\
+           (forall (J : list nat) (i : nat),
+            in_range J lead ->
+            (i < n)%nat ->
+            exists vf vr : R,
+              get cf (J ++ [i]) = Some vf /\
+              get cr (J ++ [i]) = Some vr /\
+              0 < vr /\ Rabs (vf - vr) <= softmax_rel prec (u prec) n * vr + eta emin) /\
+           (forall J : list nat,
+            in_range J lead ->
+            exists rowf : list R,
+              map Some rowf = map (fun i : nat => get cf (J ++ [i])) (seq 0 n) /\
+              Rabs (rsum rowf - 1) <= softmax_rel prec (u prec) n + INR n * eta emin).
+Proof. exact @softmax_rounding_ideal. Qed.
+
 Print Assumptions C19_round_error.
 Print Assumptions C19_add_error.
 Print Assumptions C19_mul_error.
@@ -312,3 +482,10 @@ Print Assumptions C19_matmul_f32_vs_f64.
 Print Assumptions C19_conv_two_formats.
 Print Assumptions C19_sum_two_formats.
 Print Assumptions C19_theta_le_gamma.
+Print Assumptions C19_dense_layer_error.
+Print Assumptions C19_dense_layer_f32_vs_f64.
+Print Assumptions C19_mse_error.
+Print Assumptions C19_mse_f32_vs_f64.
+Print Assumptions C19_mse_is_mean_square.
+Print Assumptions C19_softmax_error.
+Print Assumptions C19_softmax_error_ideal_exp.
